@@ -159,7 +159,7 @@ PROPS = {
    note="Trusts the harness's multipart encoder and model; upload spill files use the real file system with injected stdio failures.",
    technique="deterministic simulation: real multipart/upload path on simulated sockets, seeded chunking + adversarial contents, exact-reconstruction oracle",
    design_ref="DESIGN.md s4 C12, s3 E1"),
- "C05": dict(engine="E5 session", src="e5_session", variants=["asan"], level="exploration",
+ "C05": dict(engine="E5 session", src="e5_session", variants=["asan", "tsan"], level="exploration",
    seconds={"quick": 40, "thorough": 600},
    rule="case = one server (session_pool with one of 13 encryptor configurations: hmac-{md5,sha1,sha224,sha256,sha384,sha512}, aes/aes128/aes192/aes256, split cbc+hmac keys) and a history of 3..43 operations: save(payload 0..64 KiB, age), load, clock advance (seconds..years), "
         "and attacker rewrites of the browser's cookie (single-bit flips - position enumerated across runs, truncation, extension, cipher block swaps, splices of two issued cookies, cookies issued by a server with another key or another algorithm, prefix change, random strings, replay of old cookies, non-canonical base64, empty cipher). "
